@@ -101,9 +101,14 @@ var pathFragments = []string{"..", ".", "/", "//", "../", "../../", "./", "a", "
 func genHostileName(t *rapid.T, used map[string]bool) []byte {
 	for {
 		var sb strings.Builder
-		switch rapid.IntRange(0, 6).Draw(t, "name_kind") {
+		switch rapid.IntRange(0, 8).Draw(t, "name_kind") {
 		case 0: // friendly
 			sb.WriteString(rapid.StringMatching(`[a-z0-9_]{1,12}\.(jpg|mp4|bin)`).Draw(t, "friendly"))
+		case 6: // plain names that coincide with names a handler might use itself
+			sb.WriteString(rapid.SampledFrom([]string{"incomplete", "tmp", "file.log", "partial", "complete", "incomplete.mp4", "new"}).Draw(t, "own_names"))
+		case 7: // separators and dots spelled in full-width / ideographic characters: valid UTF-8, no ASCII '/', '\\' or '.'
+			sb.WriteString(rapid.SampledFrom([]string{"\uff0e\uff0e\uff0fevil.jpg", "\uff0e\uff0e", "\uff0e\uff0e\uff0f\uff0e\uff0e\uff0fx", "\uff0fx", "a\uff0fb", "\uff0e", "\uff3c\uff0e\uff0e\uff3cx", "\u3000",
+				"\uff0e\uff0e\uff0fdecoy", "x\uff0e\uff0e\uff0fy"}).Draw(t, "fullwidth"))
 		case 5: // separator-free names in the standard's pattern <type>_<channel>_<alarm type>_<seq>_<alarm number>.<ext>
 			// whose fields are dots: nothing in them may become a path component
 			sb.WriteString(rapid.SampledFrom([]string{"00_65_6401_0_...jpg", "02_65_6401_1_..", "00_65_6401_0_..bin", "a_b_c_d_..", "..._65_6401_0_x.jpg", ".._.._.._.._...jpg",
